@@ -75,7 +75,7 @@ func (p *mprog) infer(env menv, e *mexpr) minfo {
 			return a
 		}
 		switch {
-		case a.U == "" :
+		case a.U == "":
 			a.Const = a.Const && b.Const
 			return a
 		case b.U == "":
